@@ -15,6 +15,11 @@ VARIANTS = {
                                                "-DCCTZ_VERIF_SCHED", "-I" + os.path.join(VERIF, "src", "sched"), "-include", os.path.join(VERIF, "src", "sched", "hook.h")],
               "deps": [os.path.join(VERIF, "src", "sched", "hook.h"), os.path.join(VERIF, "src", "sched", "vp.h")]},
     "tsan": {"cxx": "g++", "flags": COMMON + ["-O1", "-g", "-fsanitize=thread"]},
+    # C12: UBSan in recover mode (reports are captured per input by a hook), ASan fatal
+    "asan_rec": {"cxx": "g++", "flags": COMMON + ["-O1", "-g", "-fno-omit-frame-pointer", "-fsanitize=address,undefined", "-fsanitize-recover=undefined"]},
+    # C12 determinism: two uninstrumented clang builds that differ only in how automatic variables are pre-filled
+    "cl_pattern": {"cxx": "clang++", "flags": COMMON + ["-O1", "-DNDEBUG", "-ftrivial-auto-var-init=pattern", "-Wno-unknown-warning-option"]},
+    "cl_zero": {"cxx": "clang++", "flags": COMMON + ["-O1", "-DNDEBUG", "-ftrivial-auto-var-init=zero", "-enable-trivial-auto-var-init-zero-knowing-it-will-be-removed-from-clang", "-Wno-unknown-warning-option"]},
 }
 
 RUN_ENV = {
@@ -31,11 +36,14 @@ HARNESSES = {
 HARNESSES["sched_explore"] = {"srcs": ["src/harness/sched_explore.cc", "src/sched/vsched.cc"], "variant": "sched", "strip_hook": True,
                               "flags": ["-I" + os.path.join(VERIF, "src", "sched")]}
 HARNESSES["hidden_state"] = {"srcs": ["src/harness/hidden_state.cc"], "variant": "asan", "flags": ["-fno-access-control"]}
+HARNESSES["fault_enum"] = {"srcs": ["src/harness/fault_enum.cc"], "variant": "asan_rec"}
+HARNESSES["fault_enum_pat"] = {"srcs": ["src/harness/fault_enum.cc"], "variant": "cl_pattern"}
+HARNESSES["fault_enum_zero"] = {"srcs": ["src/harness/fault_enum.cc"], "variant": "cl_zero"}
 HARNESSES["fixed_posix"] = {"srcs": ["src/harness/fixed_posix.cc"], "variant": "asan"}
 HARNESSES["civil_conf"] = {"srcs": ["src/harness/civil_conf.cc"], "variant": "asan"}
 
-SETUP_VARIANTS = ["asan", "plain", "sched"]
-SETUP_HARNESSES = ["zone_conf", "civil_conf", "fixed_posix", "sched_explore", "hidden_state"]
+SETUP_VARIANTS = ["asan", "plain", "sched", "asan_rec", "cl_pattern", "cl_zero"]
+SETUP_HARNESSES = ["zone_conf", "civil_conf", "fixed_posix", "sched_explore", "hidden_state", "fault_enum", "fault_enum_pat", "fault_enum_zero"]
 
 E1_LEVEL_NOTE = ("Trusted base: the reference model in /verif/src/common (128-bit calendar, RFC 9636 TZif reader, "
                  "POSIX TZ evaluator - written from the specifications, self-checked by a brute-force day walk), "
@@ -204,6 +212,62 @@ CHECKS["C14"] = mk_simple("C14", "hidden_state", "results never depend on call h
     "Trusted base: private members are read/forced via -fno-access-control on the harness TU only; the fresh-state answers themselves are checked against the reference model by C01/C02. Forcing a hint value is the same state an API call leaves (asserted per zone by reading the members after real calls).",
     engine="E2", min_eval=1000000,
     technique="explicit-state model checking on the implementation: exhaustive enumeration of the hidden-state space (hint indices x probe panel; name-cache contents x load sequences) with a differential oracle against the fresh state")
+
+
+def c12_post(rundir, merged):
+    """Compare the per-case outcome hashes of the three builds: the outcome must be a function of the bytes alone."""
+    import struct
+    out = []
+    files = [os.path.join(rundir, n) for n in ("h_asan.bin", "h_pattern.bin", "h_zero.bin")]
+    data = []
+    for f in files:
+        data.append(open(f, "rb").read() if os.path.exists(f) else b"")
+    n = min(len(d) for d in data) // 8
+    merged["counters"]["determinism_cases_compared"] = n
+    if n == 0:
+        merged["notes"].append("BROKEN: no outcome hashes to compare")
+        return out
+    diffs = 0
+    for i in range(n):
+        a, b, c = (d[8 * i:8 * i + 8] for d in data)
+        if a == b"\0" * 8 or b == b"\0" * 8 or c == b"\0" * 8:
+            continue  # case not executed in one of the builds (skipped after a crash / deviating source)
+        if not (a == b == c):
+            diffs += 1
+            if len(out) < 20:
+                out.append({"sig": "C12:outcome-differs-between-builds", "msg": "case %d: outcome hash differs between the sanitizer build / clang auto-var-init=pattern (MALLOC_PERTURB_=165) / clang auto-var-init=zero (MALLOC_PERTURB_=90): %s %s %s" % (i, a.hex(), b.hex(), c.hex()), "replay_args": ["--case", str(i)], "harness": "fault_enum"})
+    merged["counters"]["determinism_differences"] = diffs
+    return out
+
+
+def c12_vac(res, tier):
+    need = ["C12:truncate", "C12:bitflip", "C12:count", "C12:time", "C12:footer", "C12:env-read", "C12:count2", "C12:typeidx-x-typecnt", "C12:splice"]
+    missing = [c for c in need if not any(k.startswith(c) for k in res["classes"])]
+    if missing:
+        return "operator classes never exercised: " + ", ".join(missing)
+    if not any(k.endswith(":loads") for k in res["classes"]) or not any(k.endswith(":rejected") for k in res["classes"]):
+        return "mutants never loaded / never rejected"
+    if res["counters"].get("determinism_cases_compared", 0) < 10000:
+        return "determinism comparison did not run"
+    return None
+
+
+CHECKS["C12"] = {
+    "title": "loading arbitrary bytes is memory-safe, terminating, deterministic",
+    "steps": [{"harness": "fault_enum", "args": ["--hashes", "{rundir}/h_asan.bin"], "share": 0.6,
+               "env": {"UBSAN_OPTIONS": "print_stacktrace=0:halt_on_error=0", "ASAN_OPTIONS": "detect_leaks=0:allocator_may_return_null=1:max_allocation_size_mb=4096"}},
+              {"harness": "fault_enum_pat", "args": ["--hash-only", "--hashes", "{rundir}/h_pattern.bin"], "env": {"MALLOC_PERTURB_": "165"}, "share": 0.2},
+              {"harness": "fault_enum_zero", "args": ["--hash-only", "--hashes", "{rundir}/h_zero.bin"], "env": {"MALLOC_PERTURB_": "90"}, "share": 0.2}],
+    "post": c12_post,
+    "level": "fault_enumeration", "engine": "E4",
+    "technique": "deviation-bounded exhaustive fault enumeration: every single deviation of a stated operator set (and stated pairs) applied to well-formed seeds, each loaded into the real library under ASan+UBSan with a per-input report hook and watchdog; differential determinism check across auto-var-init builds",
+    "rule": "seeds (10 shipped + 7 synthetic quick; all shipped + 11 synthetic thorough) x operators: truncate to every length; every byte x {8 bit flips, 00, ff}; every header count x 13 values with/without padding; version/magic bytes; every type-index byte x 4; every ttinfo field x boundary values; every 8-byte time x 14 values; abbreviation NULs; footer := each string of the C16 corpus + stress footers; header/body splices between all seed pairs; data-source deviations (k-th Read short/empty/1 byte for k<40, failing Skip, 64 KiB Version); depth 2: pairs of count edits, time x footer, type-index x typecnt, truncate x count; inputs whose declared data length exceeds 64 MiB (512 MiB) are outside the property's precondition and skipped; class = operator x loads/rejected",
+    "design_ref": "DESIGN.md 3/C12",
+    "text": "Each mutant is loaded twice under different names in the sanitizer build (UBSan reports captured per input, ASan fatal, 20 s no-progress watchdog); a failed load must leave UTC; on a loaded zone the totality panel (extreme lookups both ways, transition chains, format) must run clean and give the same answers both times; per-case outcome hashes must agree with two uninstrumented clang builds that pre-fill automatic variables differently.",
+    "level_note": "Trusted base: ASan/UBSan runtimes, the watchdog, the reference TZif reader used only to describe inputs (facts for known-finding predicates). Bounds: one deviation per input (pairs only for the listed interacting operators); no claim for inputs that need three simultaneous deviations.",
+    "assumptions": ["enough memory for the data length the header declares (inputs declaring more than the cap are skipped)"],
+    "vacuity": c12_vac, "budget": {"quick": 400, "thorough": 3000},
+}
 
 # C10 always runs in the sanitizer build: the sanitizer is its oracle.
 CHECKS["C10"]["steps"] = lambda tier: [{"harness": "zone_conf", "args": []}]
